@@ -30,6 +30,22 @@ static int slack = 0;
 static int set_ok = 0;
 static rfbPixelFormat deffmt;
 
+/* a translate function that does not terminate must become a result, not a stuck check: CPU-time
+   watchdog (ITIMER_VIRTUAL, so machine load does not matter) around every translateFn call;
+   <= 10^6 pixels take milliseconds. */
+#include <signal.h>
+#include <sys/time.h>
+static void on_hang(int sig) {
+  static const char m[] = "\nHANG: translateFn used more than 20 s of CPU time on one area\n";
+  (void)sig; if (write(2, m, sizeof m - 1)) {}
+  _exit(124);
+}
+static void watchdog(int on) {
+  struct itimerval it; memset(&it, 0, sizeof it);
+  if (on) { signal(SIGVTALRM, on_hang); it.it_value.tv_sec = 20; }
+  setitimer(ITIMER_VIRTUAL, &it, NULL);
+}
+
 static int parse_fmt(char **t, rfbPixelFormat *f) {
   long v[10]; int i;
   for (i = 0; i < 10; i++) { char *e; v[i] = strtol(t[i], &e, 10); if (*e || v[i] < 0) return -1; }
@@ -68,11 +84,19 @@ static void print_fmt(const rfbPixelFormat *f) {
          f->blueShift);
 }
 
+static int ret_known = 0;   /* 1: `ok` is the value rfbSetTranslateFunction returned (direct call) */
 static void report_set(rfbBool ok) {
   rfbClientPtr cl = conn.cl;
   vh_drain(&conn);
   set_ok = 0;
-  if (!ok || !cl || cl->sock == RFB_INVALID_SOCKET) { puts("reject"); vh_buf_reset(&conn.out); return; }
+  if (!ok || !cl || cl->sock == RFB_INVALID_SOCKET) {
+    /* a refused request: FALSE is returned AND the client is closed.  A client that stays
+       connected would keep the refused cl->format next to the previous translateFn/table. */
+    int open_ = cl && cl->sock != RFB_INVALID_SOCKET;
+    printf("reject%s%s\n", (ok && ret_known) ? " returned-TRUE" : "", open_ ? " client-left-open" : "");
+    if (open_) rfbCloseClient(cl);      /* so that the script continues on a fresh client */
+    vh_buf_reset(&conn.out); return;
+  }
   set_ok = 1;
   if (cl->translateFn == rfbTranslateNone) printf("none");
   else printf("table=%lu", (unsigned long)__sanitizer_get_allocated_size(cl->translateLookupTable));
@@ -142,7 +166,7 @@ int main(void) {
       vh_buf_reset(&conn.out);
       conn.cl->format = cfmt;
       ok = rfbSetTranslateFunction(conn.cl);
-      report_set(ok);
+      ret_known = 1; report_set(ok);
     } else if (!strcmp(tok[0], "setmsg") && n == 1) {
       unsigned char m[20];
       if (ensure_client() < 0) { puts("harness-error"); goto next; }
@@ -156,7 +180,7 @@ int main(void) {
       m[14] = cfmt.redShift; m[15] = cfmt.greenShift; m[16] = cfmt.blueShift;
       vh_send(&conn, m, 20);
       rfbProcessClientMessage(conn.cl);
-      report_set(TRUE);
+      ret_known = 0; report_set(TRUE);
     } else if (!strcmp(tok[0], "px") && n == 5) {
       size_t hl = strlen(tok[1]); long slen; int w = atoi(tok[2]), h = atoi(tok[3]), stride = atoi(tok[4]);
       unsigned char *raw, *src, *dst; size_t inB, outB, need, outlen, i; int canok = 1; size_t step;
@@ -179,8 +203,10 @@ int main(void) {
       dst = (unsigned char *)malloc(outlen + 2 * CAN);
       memset(dst, 0xA5, outlen + 2 * CAN);
       for (i = 0; i < outlen; i++) dst[CAN + i] = 0x5A;
+      watchdog(1);
       cl->translateFn(cl->translateLookupTable, &scr->serverFormat, &cl->format,
                       (char *)src, (char *)dst + CAN, stride, w, h);
+      watchdog(0);
       for (i = 0; i < CAN; i++) if (dst[i] != 0xA5 || dst[CAN + outlen + i] != 0xA5) canok = 0;
       vh_puthex(stdout, dst + CAN, outlen);
       printf(" canary=%s\n", canok ? "ok" : "BROKEN");
